@@ -586,7 +586,20 @@ class Exec:
         return V(TSet(ety), (mem, card))
 
     def e_Dict(self, n):
-        if any(k is None for k in n.keys): raise Unsupported('dict unpacking')
+        if n.keys and all(k is None for k in n.keys):
+            # {**m1, **m2, ...} over finite maps: the union of the domains, a later map overriding an earlier one
+            ms = [self.val(self.eval(v)) for v in n.values]
+            if not all(isinstance(m_.ty, TMap) for m_ in ms): raise Unsupported('dict unpacking of a non-map')
+            kty = T._join_all([m_.ty.k for m_ in ms]); vty = T._join_all([m_.ty.v for m_ in ms])
+            ms = [coerce(m_, TMap(kty, vty)) for m_ in ms]
+            dom, val = ms[0].t[0], ms[0].t[1]
+            x_ = z3.Const('du!', sort_of(kty))
+            for m_ in ms[1:]:
+                val = z3.Lambda([x_], z3.If(z3.Select(m_.t[0], x_), z3.Select(m_.t[1], x_), z3.Select(val, x_))); dom = z3.SetUnion(dom, m_.t[0])
+            card = T.card_fn(dom)
+            for f in set_facts(dom, card, TSet(kty)): self.assume(f)
+            return V(TMap(kty, vty), (dom, val, card))
+        if any(k is None for k in n.keys): raise Unsupported('dict unpacking mixed with literal items')
         ks = [self.val(self.eval(k)) for k in n.keys]; vs = [self.val(self.eval(v)) for v in n.values]
         if not ks: return V(TTuple([]), [])     # empty, typed on assignment via var_types / first store
         kty = T._join_all([k.ty for k in ks]); vty = T._join_all([v.ty for v in vs])
@@ -950,7 +963,10 @@ class Exec:
         cls_like = lambda x: isinstance(x, (ClassRef, ExcClass, BuiltinRef, TypeObj)) or (isinstance(x, list) and all(isinstance(y, PyObj) for y in x))
         if isinstance(n.op, ast.BitOr) and cls_like(ra) and cls_like(rb):
             return (ra if isinstance(ra, list) else [ra]) + (rb if isinstance(rb, list) else [rb])      # X | Y union of classes
-        a = self.val(ra); b = self.val(rb)
+        def keyset(x):      # the keys view of a finite map used in set algebra: the set of its keys
+            if isinstance(x, MapIterV) and x.kind == 'keys': return V(TSet(x.m.ty.k), (x.m.t[0], x.m.t[2]))
+            return x
+        a = self.val(keyset(ra)); b = self.val(keyset(rb))
         return self.binop(n.op, a, b, n)
 
     def binop(self, op, a, b, node=None):
